@@ -56,9 +56,11 @@ type Check struct {
 	Assumptions []string
 	Extra       map[string]any
 	violations  []viol
-	known       []Finding
-	knownSeen   map[string]bool
-	Replay      string
+	// executions thrown away and re-run because their prefix did not replay (kernel-level nondeterminism)
+	replayRetries int64
+	known         []Finding
+	knownSeen     map[string]bool
+	Replay        string
 	// SigOf, when set, maps an exploration violation to its known-findings signature.
 	SigOf    func(scenario, param, msg string) string
 	Deadline time.Time
@@ -263,6 +265,9 @@ func (c *Check) Finish() {
 	}
 	for k, v := range c.Extra {
 		cov[k] = v
+	}
+	if c.replayRetries > 0 {
+		cov["replay_divergences_retried"] = c.replayRetries
 	}
 	ev := map[string]any{
 		"property_id": c.ID,
@@ -538,6 +543,11 @@ func (c *Check) AddExploration(name, param string, st *vsched.Stats, confirm fun
 	}
 	if !st.Exhaustive {
 		c.Cap(fmt.Sprintf("%s(%s): %s while exploring bound %d; bound %d completed", name, param, st.CapReason, st.Bound, st.BoundCompleted))
+	}
+	if st.ReplayRetries > 0 {
+		c.mu.Lock()
+		c.replayRetries += st.ReplayRetries
+		c.mu.Unlock()
 	}
 	c.Part(name+"("+param+")", map[string]any{
 		"executions": st.Execs, "scheduling_steps": st.Steps, "choice_points": st.ChoicePoints, "deviation_bound_completed": st.BoundCompleted, "deviation_bound_attempted": st.Bound, "bounding": st.Bounding,
